@@ -375,6 +375,12 @@ def r16_4(rep: Report, idx: Index, cg: CallGraph) -> None:
         if q in idx.functions:
             for qq, (f, _p) in cg.reachable([idx.functions[q]], skip_how=('by-name',)).items():
                 reach[qq] = f
+    # event generators are reached through the factory's class table (dynamic dispatch)
+    for q, f in idx.functions.items():
+        if f.rel.startswith('dashlive/server/events/') and f.name in (
+                'create_emsg_boxes', 'create_manifest_context'):
+            for qq, (g, _p) in cg.reachable([f], skip_how=('by-name',)).items():
+                reach[qq] = g
     loops = 0
     listed = []
     for q, f in sorted(reach.items()):
